@@ -10,19 +10,29 @@
 (* A failure means: a real execution on a real member of the class is cut off by the relaxation.             *)
 EXTENDS Members, IOUtils
 Traces == ndJsonDeserialize(IOEnv.TRACE_FILE)
-VARIABLES tid, mi, bad, nev, tight
-tvars == <<tid, mi, bad, nev, tight, ci, phase, fails>>
+VARIABLES tid, mi, bad, nev, tight, nov
+tvars == <<tid, mi, bad, nev, tight, nov, ci, phase, fails>>
 T == Traces[tid]
 TP(t) == [i \in 1..Len(t.P) |-> <<t.P[i][1], t.P[i][2]>>]
-Mems(t) == MembersOf(t.cls, TP(t))
+\* constant-level tables (TLC evaluates them once): the members of every case and their special points
+\* (in reverse order: the two-dimensional members, which cost most, come first in TLC's breadth-first search)
+Rev(q) == [i \in 1..Len(q) |-> q[Len(q) + 1 - i]]
+MemTab == [c \in 1..Len(Cases) |-> Rev(MembersOf(Cases[c].cls, Cases[c].P))]
+StatTab == [c \in 1..Len(Cases) |-> [i \in 1..Len(MemTab[c]) |-> StatSeq(MemTab[c][i])]]
+FixTab == [c \in 1..Len(Cases) |-> [i \in 1..Len(MemTab[c]) |-> FixSeq(MemTab[c][i])]]
+AttTab == [c \in 1..Len(Cases) |-> [i \in 1..Len(MemTab[c]) |->
+             IF Cases[c].cls = "NonexpansiveOperator" THEN AttSeq(MemTab[c][i]) ELSE <<>>]]
+\* the trace names its case by index; the index must denote the class and parameters the driver used
+CaseOK(t) == t.ci \in 1..Len(Cases) /\ Cases[t.ci].cls = t.cls /\ Cases[t.ci].P = TP(t)
+Mems(t) == MemTab[t.ci]
 \* ---- sparse normal forms: point = <<k, n, d>>*, expression = [F: <<k, n, d>>*, G: <<i, j, n, d>>*, c: <<n, d>>]
 RECURSIVE SPt(_, _, _, _)
 SPt(s, env, dim, i) == IF i > Len(s) THEN ZeroVec(dim)
-                       ELSE VAdd(VScale(<<s[i][2], s[i][3]>>, env[s[i][1]]), SPt(s, env, dim, i + 1))
+                       ELSE TAdd(TScale(<<s[i][2], s[i][3]>>, env[s[i][1]]), SPt(s, env, dim, i + 1))
 RECURSIVE SumF(_, _, _), SumG(_, _, _)
-SumF(F, fenv, i) == IF i > Len(F) THEN Z ELSE RAdd(RMul(<<F[i][2], F[i][3]>>, fenv[F[i][1]]), SumF(F, fenv, i + 1))
-SumG(G, gram, i) == IF i > Len(G) THEN Z ELSE RAdd(RMul(<<G[i][3], G[i][4]>>, gram[G[i][1]][G[i][2]]), SumG(G, gram, i + 1))
-SVal(e, gram, fenv) == RAdd(RAdd(SumF(e.F, fenv, 1), SumG(e.G, gram, 1)), <<e.c[1], e.c[2]>>)
+SumF(F, fenv, i) == IF i > Len(F) THEN Z ELSE SAdd(SMul(<<F[i][2], F[i][3]>>, fenv[F[i][1]]), SumF(F, fenv, i + 1))
+SumG(G, gram, i) == IF i > Len(G) THEN Z ELSE SAdd(SMul(<<G[i][3], G[i][4]>>, gram[G[i][1]][G[i][2]]), SumG(G, gram, i + 1))
+SVal(e, gram, fenv) == SAdd(SAdd(SumF(e.F, fenv, 1), SumG(e.G, gram, 1)), <<e.c[1], e.c[2]>>)
 \* the same expression as a dense LinForm normal form (cross-check of SVal against LinForm!EVal)
 Dense(e, np, ne) ==
   [F |-> [k \in 1..ne |-> LET I == {i \in 1..Len(e.F) : e.F[i][1] = k} IN
@@ -38,48 +48,70 @@ Choices(ctx, k, env) ==
     [] r.t = "gradT" -> << MGradT(m, SPt(r.x, env, dim, 1)) >>
     [] r.t = "stat" -> ctx.stat
     [] r.t = "fix" -> ctx.fix
-    [] r.t = "blk" -> LET p == SPt(r.x, env, dim, 1) IN << [i \in 1..dim |-> IF i = r.b THEN p[i] ELSE Z] >>
+    [] r.t = "blk" -> LET p == SPt(r.x, env, dim, 1) IN << IF dim = 1 THEN <<IF r.b = 1 THEN p[1] ELSE Z>>
+                                                                   ELSE <<IF r.b = 1 THEN p[1] ELSE Z, IF r.b = 2 THEN p[2] ELSE Z>> >>
     [] r.t = "v" -> << m.v >>
     [] r.t = "att" -> ctx.att
-ZeroAcc == [n |-> 0, bad |-> {}, tight |-> {}, x |-> {}]
-Merge(a, b) == [n |-> a.n + b.n, bad |-> a.bad \cup b.bad, tight |-> a.tight \cup b.tight, x |-> a.x \cup b.x]
-LeafEval(ctx, env) ==
-  LET t == ctx.t  m == ctx.m  dim == m.dim  np == t.NP
-      fenv == [k \in 1..t.NE |-> MVal(m, SPt(t.fr[k], env, dim, 1))]
-      gram == [i \in 1..np |-> [j \in 1..np |-> IF i <= j THEN VDot(env[i], env[j]) ELSE Z]]
-      cv == [c \in 1..Len(t.cons) |-> SVal(t.cons[c], gram, fenv)]
-      badc == {c \in 1..Len(t.cons) : IF t.cons[c].s = "eq" THEN ~RIsZ(cv[c]) ELSE RPos(cv[c])}
-      tightc == {c \in 1..Len(t.cons) : t.cons[c].s = "ineq" /\ RIsZ(cv[c])}
-      lv == [l \in 1..Len(t.lmis) |-> LET n == t.lmis[l].n IN
-               [i \in 1..n |-> [j \in 1..n |-> SVal(t.lmis[l].E[(i - 1) * n + j], gram, fenv)]]]
-      asym == {l \in 1..Len(t.lmis) : \E i \in 1..t.lmis[l].n : \E j \in 1..t.lmis[l].n : lv[l][i][j] # lv[l][j][i]}
-      npsd == {l \in 1..Len(t.lmis) : l \notin asym /\ ~PSDm(lv[l], t.lmis[l].n)}
-      \* machinery cross-check on the first evaluation of each (trace, member): SVal agrees with LinForm!EVal
-      xc == IF ctx.first /\ np > 0
-            THEN {c \in 1..Len(t.cons) : cv[c] # EVal(Dense(t.cons[c], np, t.NE), env, fenv)} ELSE {}
-  IN [n |-> 1,
-      bad |-> {<<t.cons[c].nm, m.tag>> : c \in badc} \cup {<<t.lmis[l].nm \o "-not-psd", m.tag>> : l \in npsd}
-              \cup {<<t.lmis[l].nm \o "-not-symmetric", m.tag>> : l \in asym},
-      tight |-> {t.cons[c].nm : c \in tightc},
-      x |-> {t.cons[c].nm : c \in xc}]
+(* TLC re-evaluates a LET definition at every use, so every shared intermediate value below is bound by a     *)
+(* quantifier over a singleton set ({e : v \in {expensive}}): the bound identifier holds an evaluated value.  *)
+\* n: assignments evaluated; ov: assignments dropped because a leaf value left the 32-bit guard; unk: constraint / LMI
+\* evaluations whose value left the guard (not judged)
+ZeroAcc == [n |-> 0, ov |-> 0, unk |-> 0, bad |-> {}, tight |-> {}]
+Merge(a, b) == [n |-> a.n + b.n, ov |-> a.ov + b.ov, unk |-> a.unk + b.unk, bad |-> a.bad \cup b.bad, tight |-> a.tight \cup b.tight]
+Judge(t, m, cv, lv) ==
+  LET unkc == {c \in 1..Len(t.cons) : IsOvf(cv[c])}
+      badc == {c \in 1..Len(t.cons) : c \notin unkc /\ IF t.cons[c].s = "eq" THEN ~RIsZ(cv[c]) ELSE RPos(cv[c])}
+      tightc == {c \in 1..Len(t.cons) : c \notin unkc /\ t.cons[c].s = "ineq" /\ RIsZ(cv[c])}
+      unkl == {l \in 1..Len(t.lmis) : \E i \in 1..t.lmis[l].n : \E j \in 1..t.lmis[l].n : IsOvf(lv[l][i][j])}
+      asym == {l \in 1..Len(t.lmis) : l \notin unkl /\ \E i \in 1..t.lmis[l].n : \E j \in 1..t.lmis[l].n : lv[l][i][j] # lv[l][j][i]}
+      psd == [l \in 1..Len(t.lmis) |-> IF l \in unkl \/ l \in asym THEN 2 ELSE PSD3(lv[l], t.lmis[l].n)]
+  IN The({[n |-> 1, ov |-> 0,
+           unk |-> Cardinality(unkc) + Cardinality({l \in 1..Len(t.lmis) : l \notin asym /\ ps[l] = 2}),
+           bad |-> {<<t.cons[c].nm, m.tag>> : c \in badc} \cup {<<t.lmis[l].nm \o "-not-psd", m.tag>> : l \in {l \in 1..Len(t.lmis) : ps[l] = 0}}
+                   \cup {<<t.lmis[l].nm \o "-not-symmetric", m.tag>> : l \in asym},
+           tight |-> {t.cons[c].nm : c \in tightc}] : ps \in {psd}})
+Eval2(t, m, gram, fenv) ==
+  The({Judge(t, m, cv, lv) :
+         cv \in {[c \in 1..Len(t.cons) |-> SVal(t.cons[c], gram, fenv)]},
+         lv \in {[l \in 1..Len(t.lmis) |-> LET n == t.lmis[l].n IN
+                    [i \in 1..n |-> [j \in 1..n |-> SVal(t.lmis[l].E[(i - 1) * n + j], gram, fenv)]]]}})
+LeafEval(t, m, env) ==
+  The({Eval2(t, m, gram, fenv) :
+         gram \in {[i \in 1..t.NP |-> [j \in 1..t.NP |-> IF i <= j THEN TDot(env[i], env[j]) ELSE Z]]},
+         fenv \in {[k \in 1..t.NE |-> MVal(m, SPt(t.fr[k], env, m.dim, 1))]}})
 RECURSIVE Walk(_, _, _), Fold(_, _, _, _, _)
-Walk(ctx, k, env) == IF k > ctx.t.NP THEN LeafEval(ctx, env) ELSE Fold(ctx, k, env, Choices(ctx, k, env), 1)
+Walk(ctx, k, env) == IF k > ctx.t.NP THEN LeafEval(ctx.t, ctx.m, env)
+                     ELSE The({Fold(ctx, k, env, ch, 1) : ch \in {Choices(ctx, k, env)}})
 Fold(ctx, k, env, ch, c) ==
   IF c > Len(ch) THEN ZeroAcc
-  ELSE Merge(Walk([ctx EXCEPT !.first = ctx.first /\ c = 1], k + 1, Append(env, ch[c])), Fold(ctx, k, env, ch, c + 1))
+  ELSE Merge(IF HasOvf(ch[c]) THEN [ZeroAcc EXCEPT !.ov = 1] ELSE Walk(ctx, k + 1, Append(env, ch[c])),
+             Fold(ctx, k, env, ch, c + 1))
+\* machinery cross-check, once per trace: the sparse evaluation agrees with LinForm!EVal on a fixed environment
+XEnv(t) == [k \in 1..t.NP |-> <<RI(k - 2), Q(1, k)>>]
+XFenv(t) == [k \in 1..t.NE |-> Q(k, 3)]
+XCheck(t) == LET env == XEnv(t)  fenv == XFenv(t)
+                 gram == [i \in 1..t.NP |-> [j \in 1..t.NP |-> IF i <= j THEN TDot(env[i], env[j]) ELSE Z]] IN
+             {t.cons[c].nm : c \in {c \in 1..Len(t.cons) :
+                  t.NP > 0 /\ SVal(t.cons[c], gram, fenv) # EVal(Dense(t.cons[c], t.NP, t.NE), env, fenv)}}
 \* ---- the trace machine: one step per member of the class
 TInit == /\ tid \in 1..Len(Traces)
-         /\ mi = 0 /\ bad = {} /\ nev = 0 /\ tight = {}
+         /\ mi = 0 /\ bad = {} /\ nev = 0 /\ tight = {} /\ nov = <<0, 0>>
          /\ ci = 0 /\ phase = 0 /\ fails = {}          \* (variables of the model run of Members.tla, unused here)
 Step == /\ mi < Len(Mems(T))
         /\ LET m == Mems(T)[mi + 1]
-               ctx == [t |-> T, m |-> m, stat |-> StatSeq(m), fix |-> FixSeq(m), att |-> AttSeq(m), first |-> TRUE]
+               ctx == [t |-> T, m |-> m, stat |-> StatTab[T.ci][mi + 1], fix |-> FixTab[T.ci][mi + 1],
+                       att |-> AttTab[T.ci][mi + 1]]
                \* a history that uses the block partition needs a member whose dimension carries the blocks
                r == IF T.d > m.dim THEN ZeroAcc ELSE Walk(ctx, 1, <<>>)
-           IN /\ bad' = bad \cup r.bad \cup {<<"MACHINERY-sparse-evaluation", nm>> : nm \in r.x}
-              /\ nev' = nev + r.n
-              /\ tight' = tight \cup r.tight
+           IN \E rr \in {r} :      \* (bound once: see The)
+              /\ bad' = bad \cup rr.bad \cup (IF mi = 0 THEN {<<"MACHINERY-sparse-evaluation", nm>> : nm \in XCheck(T)} ELSE {})
+                        \cup (IF CaseOK(T) THEN {} ELSE {<<"MACHINERY-case-index", T.cls>>})
+              /\ nev' = nev + rr.n
+              /\ nov' = <<nov[1] + rr.ov, nov[2] + rr.unk>>
+              /\ tight' = tight \cup rr.tight
         /\ mi' = mi + 1 /\ tid' = tid /\ UNCHANGED <<ci, phase, fails>>
 TSpec == TInit /\ [][Step]_tvars
-Report == mi = Len(Mems(T)) => PrintT(<<"V", tid, bad, nev, tight>>)
+\* one JSON line per trace (core.verdicts): the failing <<constraint family, member>> pairs, the number of (member,
+\* assignment) evaluations and the inequality families that were tight (= 0) at some member (vacuity indicator)
+Report == mi = Len(Mems(T)) => PrintT(ToJson(<<"V", tid, [bad |-> bad, n |-> nev, tight |-> tight, ov |-> nov[1], unk |-> nov[2]]>>))
 =============================================================================
